@@ -580,14 +580,20 @@ fn opt_idx(s: &str) -> Option<Option<usize>> {
 
 /// what `undo` re-does (see the Lean driver)
 pub enum Ghost {
-    Sym(u32, Vec<u128>, usize),
+    Sym(u32, u32, Vec<u128>, usize),
     Prec(u32),
 }
 
 fn undo_one<C: ChainPrec>(d: &mut Dyn<C::W, C::S>, ghost: &mut Vec<Ghost>) -> String {
     match ghost.pop() {
         None => "empty".into(),
-        Some(Ghost::Sym(b, cdf, s)) => C::enc_sym(d, b, &cdf, s).unwrap_or_else(|| "unsupported".into()),
+        Some(Ghost::Sym(p, b, cdf, s)) => {
+            if p != d.p {
+                "skip".into()
+            } else {
+                C::enc_sym(d, b, &cdf, s).unwrap_or_else(|| "unsupported".into())
+            }
+        }
         Some(Ghost::Prec(q)) => C::cp(d, 0, q).unwrap_or_else(|| "unsupported".into()),
     }
 }
@@ -638,12 +644,29 @@ fn run_hist<C: ChainPrec>(segs: &[Vec<&str>], p0: u32) -> String {
         let r = guarded(|| -> Option<String> {
             let uns = || "unsupported".to_string();
             Some(match seg.as_slice() {
-                ["dec", b, cdf] => {
+                [op @ ("dec" | "enc" | "encnone" | "encsym" | "encs" | "decs"), p, ..]
+                    if parse_hex(p)? as u32 != d.p =>
+                {
+                    // arity check as in the Lean driver
+                    let ar = match *op {
+                        "dec" => 4,
+                        "enc" => 5,
+                        "encnone" => 3,
+                        "encsym" => 5,
+                        "encs" => 7,
+                        _ => 7,
+                    };
+                    if seg.len() != ar {
+                        return None;
+                    }
+                    "skip".into()
+                }
+                ["dec", _, b, cdf] => {
                     let b = parse_hex(b)? as u32;
                     let cdf = parse_list(cdf)?;
                     let o = C::dec(&mut d, b, &cdf).unwrap_or_else(uns);
                     if let Some(s) = parse_hex(&o) {
-                        ghost.push(Ghost::Sym(b, cdf, s as usize));
+                        ghost.push(Ghost::Sym(d.p, b, cdf, s as usize));
                     }
                     o
                 }
@@ -664,14 +687,14 @@ fn run_hist<C: ChainPrec>(segs: &[Vec<&str>], p0: u32) -> String {
                         }
                     }
                 }
-                ["enc", b, cum, pr] => {
+                ["enc", _, b, cum, pr] => {
                     C::enc(&mut d, parse_hex(b)? as u32, Some((parse_hex(cum)?, parse_hex(pr)?))).unwrap_or_else(uns)
                 }
-                ["encnone", b] => C::enc(&mut d, parse_hex(b)? as u32, None).unwrap_or_else(uns),
-                ["encsym", b, cdf, s] => {
+                ["encnone", _, b] => C::enc(&mut d, parse_hex(b)? as u32, None).unwrap_or_else(uns),
+                ["encsym", _, b, cdf, s] => {
                     C::enc_sym(&mut d, parse_hex(b)? as u32, &parse_list(cdf)?, parse_hex(s)? as usize).unwrap_or_else(uns)
                 }
-                ["encs", b, form, cdf, syms, err_at] => {
+                ["encs", _, b, form, cdf, syms, err_at] => {
                     let syms: Vec<usize> = parse_list(syms)?.iter().map(|&s| s as usize).collect();
                     let form = parse_hex(form)? as u32;
                     if form > 5 {
@@ -680,7 +703,7 @@ fn run_hist<C: ChainPrec>(segs: &[Vec<&str>], p0: u32) -> String {
                     C::enc_batch(&mut d, parse_hex(b)? as u32, form, &parse_list(cdf)?, &syms, opt_idx(err_at)?)
                         .unwrap_or_else(uns)
                 }
-                ["decs", b, form, cdf, n, err_at] => {
+                ["decs", _, b, form, cdf, n, err_at] => {
                     let form = parse_hex(form)? as u32;
                     if form > 2 {
                         return None;
@@ -691,7 +714,7 @@ fn run_hist<C: ChainPrec>(segs: &[Vec<&str>], p0: u32) -> String {
                         .unwrap_or_else(uns);
                     if let Some(syms) = o.split(' ').next().and_then(parse_list) {
                         for s in syms {
-                            ghost.push(Ghost::Sym(b, cdf.clone(), s as usize));
+                            ghost.push(Ghost::Sym(d.p, b, cdf.clone(), s as usize));
                         }
                     }
                     o
@@ -1016,6 +1039,980 @@ pub fn run(segs: &[Vec<&str>]) -> String {
     }
 }
 
-pub fn gen(_rng: &mut Rng, _tier: &str, _out: &mut Vec<String>) {}
+// ---------------------------------------------------------------------------------------
+// generation
 
-pub fn oracle(_rng: &mut Rng, _tier: &str, _rep: &mut Report) {}
+/// random strictly increasing cdf `[0, …, 2^P]` with 2..=6 symbols, biased towards extreme
+/// probabilities (1 quantum, 2^P - (n-1) quanta)
+fn gen_cdf(rng: &mut Rng, p: u32) -> Vec<u128> {
+    let total = pow2(p);
+    let max_n = total.min(6);
+    let n = rng.range(2, max_n);
+    let mut inner: Vec<u128> = Vec::new();
+    let style = rng.next() % 4;
+    while (inner.len() as u128) < n - 1 {
+        let c = match style {
+            0 => 1 + rng.below(total - 1),
+            1 => 1 + rng.below((n + 1).min(total - 1)),
+            2 => total - 1 - rng.below((n + 1).min(total - 1)),
+            _ => {
+                if rng.chance(1, 2) {
+                    1 + rng.below(total - 1)
+                } else {
+                    rng.bits_biased(p).clamp(1, total - 1)
+                }
+            }
+        };
+        if !inner.contains(&c) {
+            inner.push(c);
+        }
+    }
+    inner.sort();
+    let mut cdf = vec![0];
+    cdf.extend(inner);
+    cdf.push(total);
+    cdf
+}
+
+fn gen_cp(rng: &mut Rng, p: u32) -> (u128, u128) {
+    let total = pow2(p);
+    let pr = match rng.next() % 5 {
+        0 => 1,
+        1 => total - 1,
+        2 => (total / 2).max(1),
+        _ => 1 + rng.below(total - 1),
+    };
+    let pr = pr.clamp(1, (total - 1).max(1));
+    let cum = match rng.next() % 4 {
+        0 => 0,
+        1 => total - pr,
+        _ => rng.below(total - pr + 1),
+    };
+    (cum, pr)
+}
+
+/// the probability widths compiled in for coder precision `p`
+fn bs_for(bps: &[(u32, Vec<u32>)], p: u32) -> Vec<u32> {
+    bps.iter().filter(|(_, ps)| ps.contains(&p)).map(|(b, _)| *b).collect()
+}
+
+fn union_precs(bps: &[(u32, Vec<u32>)]) -> Vec<u32> {
+    let mut v: Vec<u32> = bps.iter().flat_map(|(_, ps)| ps.iter().copied()).collect();
+    v.sort();
+    v.dedup();
+    v
+}
+
+fn gen_data(rng: &mut Rng, w: u32, maxn: usize) -> Vec<u128> {
+    let n = (rng.next() as usize) % (maxn + 1);
+    match rng.next() % 8 {
+        0 => vec![0; n],
+        1 => vec![pow2(w) - 1; n],
+        2 => (0..n).map(|_| if rng.chance(1, 2) { 0 } else { rng.below(pow2(w)) }).collect(),
+        3 => (0..n).map(|_| rng.bits_biased(w)).collect(),
+        _ => (0..n).map(|_| rng.below(pow2(w))).collect(),
+    }
+}
+
+fn mask(s: u32) -> u128 {
+    pow2(s).wrapping_sub(1)
+}
+
+/// head values on and around every comparison of the code
+fn gen_raw_init(rng: &mut Rng, w: u32, s: u32, p: u32) -> String {
+    let wm = mask(w);
+    let hc_cands = [
+        1,
+        2,
+        pow2(p) - 1,
+        pow2(p) & wm,
+        (pow2(p) + 1) & wm,
+        pow2(w - p).wrapping_sub(1) & wm,
+        pow2(w - p) & wm,
+        (pow2(w - p) + 1) & wm,
+        wm,
+        pow2(w - 1),
+        rng.below(pow2(w)),
+        rng.below(pow2(w)),
+    ];
+    let mut hc = *rng.pick(&hc_cands);
+    if hc == 0 {
+        hc = if rng.chance(1, 20) { 0 } else { 1 };
+    }
+    let lo = pow2(s - w - p);
+    let hi = pow2(s - p);
+    let (_, pr) = gen_cp(rng, p);
+    let q = *rng.pick(&[1u32, p.saturating_sub(1).max(1), (p + 1).min(w), w]);
+    let k = rng.below(((s - p) / w) as u128 + 1) as u32;
+    let hr = match rng.next() % 16 {
+        0 => lo,
+        1 => lo + 1,
+        2 => hi - 1,
+        3 => hi - 2 + (hi == 1) as u128,
+        // encode refill threshold for probability `pr`
+        4 => (pr << (s - w - p)).wrapping_sub(1),
+        5 => pr << (s - w - p),
+        6 => (pr << (s - w - p)) + 1,
+        // decode flush threshold for probability `pr` (remainder 0 / pr-1)
+        7 => (hi + pr - 1) / pr - (rng.next() % 2) as u128,
+        8 => (hi - (pr - 1) + pr - 1) / pr - (rng.next() % 2) as u128,
+        // precision-change thresholds
+        9 => (pow2(s - q) + rng.below(3)).wrapping_sub(1),
+        10 => (pow2(s - q - w) + rng.below(3)).wrapping_sub(1),
+        // into_binary: exactly / not exactly a whole number of words
+        11 => pow2(k * w) + if rng.chance(1, 2) { 0 } else { rng.below(pow2(k * w)) },
+        12 => pow2(k * w + 1 + (rng.next() % (w as u64 - 1)) as u32 % (s - k * w).max(1)) & mask(s),
+        // outside the invariant
+        13 => *rng.pick(&[0, lo.wrapping_sub(1), hi, hi + 1, mask(s), pow2(s - w), pow2(s - w).wrapping_sub(1)]),
+        _ => lo + rng.below(hi - lo),
+    } & mask(s);
+    let comp = gen_data(rng, w, 3);
+    let rems = gen_data(rng, w, 3);
+    format!("raw {} {} {:x} {:x}", show_list(comp), show_list(rems), hc, hr)
+}
+
+struct GenCtx<'a> {
+    w: u32,
+    s: u32,
+    bps: &'a [(u32, Vec<u32>)],
+    precs: Vec<u32>,
+    /// a few models per precision, so that the same model recurs
+    cdfs: std::collections::BTreeMap<u32, Vec<Vec<u128>>>,
+}
+
+impl<'a> GenCtx<'a> {
+    fn cdf(&mut self, rng: &mut Rng, p: u32) -> Vec<u128> {
+        let e = self.cdfs.entry(p).or_default();
+        if e.len() < 3 {
+            e.push(gen_cdf(rng, p));
+        }
+        rng.pick(e).clone()
+    }
+    fn b(&self, rng: &mut Rng, p: u32) -> u32 {
+        *rng.pick(&bs_for(self.bps, p))
+    }
+    fn new_prec(&self, rng: &mut Rng, p: u32, kind: &str) -> u32 {
+        let c: Vec<u32> = self
+            .precs
+            .iter()
+            .copied()
+            .filter(|&q| match kind {
+                "incp" => q >= p,
+                "decp" => q <= p,
+                _ => true,
+            })
+            .collect();
+        *rng.pick(&c)
+    }
+}
+
+fn gen_dec_op(g: &mut GenCtx, rng: &mut Rng, p: u32) -> String {
+    format!("dec {:x} {:x} {}", p, g.b(rng, p), show_list(g.cdf(rng, p)))
+}
+
+/// decode / precision-change schedule, export, re-import, undo everything, finish
+fn gen_roundtrip(rng: &mut Rng, w: u32, s: u32, bps: &[(u32, Vec<u32>)]) -> String {
+    let mut g = GenCtx { w, s, bps, precs: union_precs(bps), cdfs: Default::default() };
+    let p0 = *rng.pick(&g.precs);
+    let mut p = p0;
+    let from_bin = rng.chance(1, 2);
+    let n = rng.next() % 30;
+    let mut ops: Vec<String> = Vec::new();
+    let mut bits: u128 = 0;
+    for _ in 0..n {
+        let op = match rng.next() % 16 {
+            0..=10 => {
+                bits += p as u128;
+                gen_dec_op(&mut g, rng, p)
+            }
+            11 => {
+                let k = rng.next() % 5;
+                bits += (p as u128) * k as u128;
+                format!("decs {:x} {:x} {:x} {} {:x} -", p, g.b(rng, p), *rng.pick(&[0u32, 2]), show_list(g.cdf(rng, p)), k)
+            }
+            12 => "raw".into(),
+            _ => {
+                let kind = *rng.pick(&["cp", "cp", "cp", "incp", "decp"]);
+                let q = g.new_prec(rng, p, kind);
+                // the generator cannot know whether the change succeeds (decreasing fails in
+                // rare corner cases); ops carry the precision they expect and answer `skip`
+                // on both sides if the coder has another one
+                let op = format!("{} {:x}", kind, q);
+                p = q;
+                op
+            }
+        };
+        ops.push(op);
+    }
+    // enough data for the heads and all chunks, give or take
+    let head_words = ((s - w - p0) + w - 1) / w + (!from_bin) as u32;
+    let need = head_words as u128 + (bits + w as u128 - 1) / w as u128;
+    let len = match rng.next() % 16 {
+        0..=8 => need + rng.below(3),
+        9..=12 => need,
+        13 => need.saturating_sub(1 + rng.below(3)),
+        _ => rng.below(need + 3),
+    } as usize;
+    let mut data = gen_data(rng, w, 0);
+    let style = rng.next() % 8;
+    for _ in 0..len {
+        data.push(match style {
+            0 => 0,
+            1 => pow2(w) - 1,
+            2 => {
+                if rng.chance(1, 2) {
+                    0
+                } else {
+                    rng.below(pow2(w))
+                }
+            }
+            3 => rng.bits_biased(w),
+            _ => rng.below(pow2(w)),
+        });
+    }
+    if !from_bin {
+        if let Some(l) = data.last_mut() {
+            if *l == 0 && rng.chance(7, 8) {
+                *l = 1 + rng.below(pow2(w) - 1);
+            }
+        }
+    }
+    let mut line = format!(
+        "chain {:x} {:x} {:x} | {} {}",
+        w,
+        s,
+        p0,
+        if from_bin { "binary" } else { "compressed" },
+        show_list(data)
+    );
+    for op in ops {
+        line.push_str(" | ");
+        line.push_str(&op);
+    }
+    line.push_str(" | raw | intorem");
+    match rng.next() % 3 {
+        0 => {}
+        1 => line.push_str(" | reimport 1"),
+        _ => line.push_str(" | reimport 2"),
+    }
+    if rng.chance(1, 6) {
+        line.push_str(&format!(" | encnone {:x} {:x}", p, g.b(rng, p)));
+    }
+    line.push_str(" | undoall | raw");
+    line.push_str(if from_bin == rng.chance(15, 16) { " | final bin" } else { " | final comp" });
+    if rng.chance(1, 4) {
+        // running out of remainders: one more symbol than was ever decoded
+        line.push_str(&format!(" | encsym {:x} {:x} {} 0 | raw", p, g.b(rng, p), show_list(g.cdf(rng, p))));
+    }
+    line
+}
+
+/// random history over the whole operation alphabet
+fn gen_history(rng: &mut Rng, w: u32, s: u32, bps: &[(u32, Vec<u32>)]) -> String {
+    let mut g = GenCtx { w, s, bps, precs: union_precs(bps), cdfs: Default::default() };
+    let mut p = *rng.pick(&g.precs);
+    let init = match rng.next() % 8 {
+        0..=2 => format!("binary {}", show_list(gen_data(rng, w, 4 + 96 / w as usize))),
+        3..=4 => {
+            let mut d = gen_data(rng, w, 4 + 96 / w as usize);
+            if let Some(l) = d.last_mut() {
+                if *l == 0 && rng.chance(3, 4) {
+                    *l = 1;
+                }
+            }
+            format!("compressed {}", show_list(d))
+        }
+        5 => format!("remainders {}", show_list(gen_data(rng, w, 8))),
+        _ => gen_raw_init(rng, w, s, p),
+    };
+    let mut line = format!("chain {:x} {:x} {:x} | {}", w, s, p, init);
+    let n = rng.next() % 20;
+    let mut nsnaps = 0;
+    for _ in 0..n {
+        let op: String = match rng.next() % 40 {
+            0..=11 => gen_dec_op(&mut g, rng, p),
+            12..=13 => {
+                let k = rng.next() % 5;
+                let form = rng.next() % 3;
+                let err_at = if form == 1 && k > 0 && rng.chance(1, 2) { hex(rng.below(k as u128)) } else { "-".into() };
+                format!("decs {:x} {:x} {:x} {} {:x} {}", p, g.b(rng, p), form, show_list(g.cdf(rng, p)), k, err_at)
+            }
+            14..=16 => {
+                let kind = *rng.pick(&["cp", "cp", "cp", "incp", "decp"]);
+                let q = g.new_prec(rng, p, kind);
+                p = q;
+                format!("{} {:x} | raw", kind, q)
+            }
+            17..=21 => "undo".into(),
+            22 => "undoall".into(),
+            23..=24 => {
+                let cdf = g.cdf(rng, p);
+                let i = rng.below(cdf.len() as u128 - 1) as usize;
+                format!("enc {:x} {:x} {:x} {:x}", p, g.b(rng, p), cdf[i], cdf[i + 1] - cdf[i])
+            }
+            25 => {
+                let (cum, pr) = gen_cp(rng, p);
+                format!("enc {:x} {:x} {:x} {:x}", p, g.b(rng, p), cum, pr)
+            }
+            26 => {
+                let cdf = g.cdf(rng, p);
+                let extra = if rng.chance(1, 4) { 1 + (rng.next() % 2) as u128 * 0x1_0000_0000 } else { 0 };
+                let sym = rng.below(cdf.len() as u128 - 1) + extra * (cdf.len() as u128 - 1);
+                format!("encsym {:x} {:x} {} {:x}", p, g.b(rng, p), show_list(cdf), sym)
+            }
+            27 => format!("encnone {:x} {:x}", p, g.b(rng, p)),
+            28 => {
+                let cdf = g.cdf(rng, p);
+                let k = rng.next() as usize % 5;
+                let syms: Vec<u128> = (0..k)
+                    .map(|_| {
+                        let extra = if rng.chance(1, 12) { 1 } else { 0 };
+                        rng.below(cdf.len() as u128 - 1 + extra)
+                    })
+                    .collect();
+                let form = rng.next() % 6;
+                let err_at = if (form == 2 || form == 3) && k > 0 && rng.chance(1, 2) { hex(rng.below(k as u128)) } else { "-".into() };
+                format!("encs {:x} {:x} {:x} {} {} {}", p, g.b(rng, p), form, show_list(cdf), show_list(syms), err_at)
+            }
+            29..=30 => format!("reimport {}", 1 + rng.next() % 2),
+            31 => "intorem".into(),
+            32 => "intocomp".into(),
+            33 => "intobin".into(),
+            34 => (*rng.pick(&["whole", "mex", "mfull", "clone"])).into(),
+            35 => format!("final {}", *rng.pick(&["comp", "bin"])),
+            36 => {
+                nsnaps += 1;
+                "snap".into()
+            }
+            37 if nsnaps > 0 => format!("seekto {:x}", rng.below(nsnaps)),
+            _ => "raw".into(),
+        };
+        line.push_str(" | ");
+        line.push_str(&op);
+    }
+    line.push_str(" | raw | intorem");
+    line
+}
+
+/// raw heads on a threshold followed by the operation whose comparison it is
+fn gen_boundary(rng: &mut Rng, w: u32, s: u32, bps: &[(u32, Vec<u32>)]) -> String {
+    let mut g = GenCtx { w, s, bps, precs: union_precs(bps), cdfs: Default::default() };
+    let p = *rng.pick(&g.precs);
+    let b = g.b(rng, p);
+    let lo = pow2(s - w - p);
+    let hi = pow2(s - p);
+    let wm = mask(w);
+    let hc_cands = [1, pow2(p) - 1, pow2(p) & wm, (pow2(p) + 1) & wm, pow2(w - p).wrapping_sub(1) & wm, pow2(w - p) & wm, (pow2(w - p) + 1) & wm, wm];
+    let mut hc = *rng.pick(&hc_cands);
+    if hc == 0 {
+        hc = 1;
+    }
+    let comp = {
+        let mut c = gen_data(rng, w, 2);
+        if rng.chance(3, 4) {
+            c.push(rng.bits_biased(w));
+        }
+        c
+    };
+    let rems = {
+        let mut c = gen_data(rng, w, 2);
+        if rng.chance(2, 3) {
+            c.push(rng.bits_biased(w));
+        }
+        c
+    };
+    let d: i64 = (rng.next() % 3) as i64 - 1;
+    let adj = |x: u128| -> u128 { (if d < 0 { x.wrapping_sub(1) } else { x + d as u128 }) & mask(s) };
+    let cdf = g.cdf(rng, p);
+    let (hr, op): (u128, String) = match rng.next() % 6 {
+        0 | 1 => {
+            // decode: flush iff hr * pr + r >= 2^(S-P)
+            let q = if p == w || hc < pow2(p) { comp.last().copied().unwrap_or(0) & mask(p) } else { hc & mask(p) };
+            let i = cdf.iter().skip(1).take_while(|&&c| c <= q).count();
+            let (cum, pr) = (cdf[i], cdf[i + 1] - cdf[i]);
+            let r = q - cum;
+            let star = (hi - r + pr - 1) / pr;
+            (adj(star).clamp(lo, hi - 1), format!("dec {:x} {:x} {}", p, b, show_list(cdf.clone())))
+        }
+        2 | 3 => {
+            // encode: refill iff hr < pr << (S-W-P)
+            let i = rng.below(cdf.len() as u128 - 1) as usize;
+            let pr = cdf[i + 1] - cdf[i];
+            (adj(pr << (s - w - p)).clamp(lo, hi - 1), format!("encsym {:x} {:x} {} {:x}", p, b, show_list(cdf.clone()), i))
+        }
+        4 => {
+            let kind = *rng.pick(&["cp", "cp", "incp", "decp"]);
+            let q = g.new_prec(rng, p, kind);
+            let thr = if q > p || (kind == "incp") { pow2(s - q) } else { pow2(s - q - w) };
+            (adj(thr).clamp(lo, hi - 1), format!("{} {:x} | raw | undo", kind, q))
+        }
+        _ => {
+            let k = rng.below(((s - p) / w) as u128 + 1) as u32;
+            let v = match rng.next() % 3 {
+                0 => pow2(k * w),
+                1 => pow2(k * w) + rng.below(pow2(k * w)),
+                _ => pow2(k * w + 1),
+            };
+            hc = if rng.chance(2, 3) { 1 } else { hc };
+            (v & mask(s), "intobin | intocomp | intorem | reimport 1".into())
+        }
+    };
+    format!(
+        "chain {:x} {:x} {:x} | raw {} {} {:x} {:x} | {} | raw | undo | raw | intorem",
+        w,
+        s,
+        p,
+        show_list(comp),
+        show_list(rems),
+        hc,
+        hr,
+        op
+    )
+}
+
+/// `chainsweep` lines over `[lo, hi]`, split into chunks of about `chunk_steps` steps
+fn sweep_lines(out: &mut Vec<String>, p: u32, b: u32, kind: &str, lo: u128, hi: u128, steps_per: u128, chunk_steps: u128) {
+    let per = (chunk_steps / steps_per.max(1)).max(1);
+    let mut a = lo;
+    while a <= hi {
+        let z = (a + per - 1).min(hi);
+        out.push(format!("chainsweep 8 10 {:x} {:x} {} {:x} {:x}", p, b, kind, a, z));
+        a = z + 1;
+    }
+}
+
+fn gen_sweeps(tier: &str, out: &mut Vec<String>) {
+    let thorough = tier == "thorough";
+    let chunk = 200_000u128;
+    let precs = [1u32, 2, 3, 4, 5, 7, 8];
+    for &p in &precs {
+        let top = pow2(p);
+        let lo = pow2(16 - 8 - p);
+        let hi = pow2(16 - p);
+        sweep_lines(out, p, 8, "decbits", 1, 0xff, 256, chunk);
+        sweep_lines(out, p, 8, "decbits0", 1, 0xff, 1, chunk);
+        sweep_lines(out, p, 8, "encbits", 1, 0xff, top, chunk);
+        // remainders side: (ranges of hr, in addition to bands around the invariant's bounds)
+        let dec_per = top * (top - 1); // 2 * sum_{p<top} p
+        let enc_per = (top - 1) * 6;
+        let bands = |m: u128| -> Vec<(u128, u128)> {
+            vec![(lo.saturating_sub(m), lo + m), (hi - m.min(hi), (hi + m).min(0xffff)), (0xffff - m, 0xffff)]
+        };
+        let full: Vec<(u128, u128)> = vec![(0, 0xffff)];
+        let valid_plus: Vec<(u128, u128)> = vec![(0, (hi + 0x100).min(0xffff)), (0xff00, 0xffff)];
+        let (dec_ranges, enc_ranges): (Vec<(u128, u128)>, Vec<(u128, u128)>) = if thorough {
+            match p {
+                1..=4 => (full.clone(), full.clone()),
+                5 => (valid_plus.clone(), full.clone()),
+                _ => (vec![(0, hi + 8), (0xfff0, 0xffff)], valid_plus.clone()),
+            }
+        } else {
+            match p {
+                1 => (full.clone(), full.clone()),
+                2 | 3 => (valid_plus.clone(), valid_plus.clone()),
+                4 => (vec![(0, 0x400), (0xf00, 0x1100), (0xfff0, 0xffff)], valid_plus.clone()),
+                5 => (bands(48), bands(64)),
+                _ => (bands(2), bands(48)),
+            }
+        };
+        for (a, z) in dec_ranges {
+            sweep_lines(out, p, 8, "decrem", a, z, dec_per, chunk);
+        }
+        for (a, z) in enc_ranges {
+            sweep_lines(out, p, 8, "encrem", a, z, enc_per, chunk);
+        }
+        for &q in &precs {
+            if thorough {
+                sweep_lines(out, p, q, "cp", 0, 0xffff, 5, chunk);
+            } else {
+                let mut pts = vec![pow2(16 - q), pow2(16 - q - 8), lo, hi];
+                pts.sort();
+                pts.dedup();
+                sweep_lines(out, p, q, "cp", 0, 0x1ff, 5, chunk);
+                for t in pts {
+                    if t > 0x1ff + 8 {
+                        sweep_lines(out, p, q, "cp", t - 8, (t + 8).min(0xffff), 5, chunk);
+                    }
+                }
+            }
+        }
+        if thorough {
+            sweep_lines(out, p, 8, "import", 0, 0xff, 256 * 12, chunk);
+        } else {
+            sweep_lines(out, p, 8, "import", 0, 0x1f, 256 * 12, chunk);
+            sweep_lines(out, p, 8, "import", 0xfe, 0xff, 256 * 12, chunk);
+        }
+    }
+    // the exporters do not depend on the precision
+    if thorough {
+        sweep_lines(out, 8, 8, "export", 0, 0xffff, 9, chunk);
+    } else {
+        sweep_lines(out, 8, 8, "export", 0, 0x2fff, 9, chunk);
+        sweep_lines(out, 8, 8, "export", 0xff00, 0xffff, 9, chunk);
+    }
+}
+
+pub fn gen(rng: &mut Rng, tier: &str, out: &mut Vec<String>) {
+    let thorough = tier == "thorough";
+    let (n_round, n_hist, n_bound) = if thorough { (3000, 3000, 3000) } else { (150, 150, 150) };
+    for (w, s, bps) in combos() {
+        for _ in 0..n_round {
+            out.push(gen_roundtrip(rng, w, s, &bps));
+        }
+        for _ in 0..n_hist {
+            out.push(gen_history(rng, w, s, &bps));
+        }
+        for _ in 0..n_bound {
+            out.push(gen_boundary(rng, w, s, &bps));
+        }
+    }
+    // a malformed line
+    out.push("chain 8 10 3 | binary 1,2,3 | frobnicate".into());
+    out.push("chain 8 10 3 | raw - - 0 40 | raw".into());
+    gen_sweeps(tier, out);
+}
+
+// ---------------------------------------------------------------------------------------
+// implementation-level oracles (real code only; no reference to the Lean model)
+
+#[derive(Clone)]
+enum Step {
+    Dec { p: u32, b: u32, cdf: Vec<u128>, sym: usize },
+    Prec { old: u32 },
+}
+
+fn find(cdf: &[u128], q: u128) -> usize {
+    cdf.iter().skip(1).take_while(|&&c| c <= q).count()
+}
+
+/// Reference chunking for C14, written on bit lists with provenance instead of word
+/// arithmetic: which bits of which data word make up the i-th quantile.  `words` is the
+/// compressed stack in `Vec` order; each quantile is a list of `(word index, bit index)`,
+/// most significant bit first.  Stops when the data runs out.
+fn reference_chunks(words_len: usize, w: u32, p: u32, n: usize) -> Vec<Vec<(usize, u32)>> {
+    let mut out = Vec::new();
+    let mut buf: Vec<(usize, u32)> = Vec::new(); // leftover bits below the marker, msb first
+    let mut next = words_len; // index of the next word to pop + 1
+    for _ in 0..n {
+        if p == w || (buf.len() as u32) < p {
+            if next == 0 {
+                break;
+            }
+            next -= 1;
+            let bits: Vec<(usize, u32)> = (0..w).rev().map(|i| (next, i)).collect();
+            if p == w {
+                out.push(bits);
+            } else {
+                // the low `p` bits are the quantile, the rest goes below the leftover bits
+                out.push(bits[(w - p) as usize..].to_vec());
+                buf.extend_from_slice(&bits[..(w - p) as usize]);
+            }
+        } else {
+            let at = buf.len() - p as usize;
+            out.push(buf.split_off(at));
+        }
+    }
+    out
+}
+
+fn chunk_value(words: &[u128], chunk: &[(usize, u32)]) -> u128 {
+    chunk.iter().fold(0, |acc, &(wi, bi)| (acc << 1) | ((words[wi] >> bi) & 1))
+}
+
+fn describe<C: ChainPrec>(p0: u32, from_bin: bool, data: &[u128]) -> String {
+    format!(
+        "chain {:x} {:x} {:x} | {} {}",
+        C::WBITS,
+        C::SBITS,
+        p0,
+        if from_bin { "binary" } else { "compressed" },
+        show_list(data.iter().copied())
+    )
+}
+
+fn oracle_combo<C: ChainPrec>(rng: &mut Rng, bps: &[(u32, Vec<u32>)], iters: usize, rep: &mut Report) {
+    let (w, s) = (C::WBITS, C::SBITS);
+    let precs = union_precs(bps);
+    for _ in 0..iters {
+        let mut g = GenCtx { w, s, bps, precs: precs.clone(), cdfs: Default::default() };
+
+        // ---------------- C13 (+ C09, C10): decode, export, re-import, re-encode ----------------
+        let p0 = *rng.pick(&precs);
+        let from_bin = rng.chance(1, 2);
+        let nsteps = (rng.next() % 40) as usize;
+        let head_words = ((s - w - p0) + w - 1) / w + (!from_bin) as u32;
+        let approx = head_words as u128 + (nsteps as u128 * p0 as u128) / w as u128;
+        let len = match rng.next() % 8 {
+            0 => rng.below(approx + 2),
+            1 => approx.saturating_sub(rng.below(3)),
+            _ => approx + 1 + rng.below(4),
+        } as usize;
+        let style = rng.next() % 6;
+        let mut data: Vec<u128> = (0..len)
+            .map(|_| match style {
+                0 => 0,
+                1 => pow2(w) - 1,
+                2 => {
+                    if rng.chance(1, 2) {
+                        0
+                    } else {
+                        rng.below(pow2(w))
+                    }
+                }
+                _ => rng.below(pow2(w)),
+            })
+            .collect();
+        let expect_zero_top_err = !from_bin && data.last().map_or(true, |&l| l == 0) && rng.chance(1, 8);
+        if !from_bin && !expect_zero_top_err {
+            match data.last_mut() {
+                Some(l) => {
+                    if *l == 0 {
+                        *l = 1 + rng.below(pow2(w) - 1);
+                    }
+                }
+                None => data.push(1 + rng.below(pow2(w) - 1)),
+            }
+        }
+        if data.iter().any(|&x| x == 0) {
+            rep.count("C13.data_with_zero_word");
+        }
+        let mut desc = describe::<C>(p0, from_bin, &data);
+        let made = guarded(|| C::ctor(if from_bin { 0 } else { 1 }, p0, words::<C::W>(&data)).unwrap());
+        rep.eval("C10");
+        let d0 = match made {
+            Err(class) => {
+                rep.fail("C10", format!("{} => constructor {}", desc, class));
+                continue;
+            }
+            Ok(Err(())) => {
+                // too few words, or `from_compressed` with a zero word on top: an error, fine
+                rep.count("C13.ctor_err");
+                if !from_bin && data.last().map_or(false, |&l| l == 0) {
+                    rep.count("C13.ctor_err.zero_top_word");
+                }
+                continue;
+            }
+            Ok(Ok(d)) => d,
+        };
+        if expect_zero_top_err {
+            rep.fail("C13", format!("{} => from_compressed accepted data with a zero word on top", desc));
+            continue;
+        }
+        // the heads consumed words from the top only
+        if d0.comp.len() > data.len() || unwords(&d0.comp)[..] != data[..d0.comp.len()] {
+            rep.fail("C13", format!("{} => compressed stack after construction is not a prefix of the data", desc));
+            continue;
+        }
+        let mut d = d0.clone();
+        let mut log: Vec<Step> = Vec::new();
+        let mut broken = false;
+        for _ in 0..nsteps {
+            if rng.chance(5, 6) {
+                let p = d.p;
+                let b = g.b(rng, p);
+                let cdf = g.cdf(rng, p);
+                desc.push_str(&format!(" | dec {:x} {:x} {}", p, b, show_list(cdf.clone())));
+                let before = d.clone();
+                rep.eval("C10");
+                match guarded(|| C::dec(&mut d, b, &cdf).unwrap()) {
+                    Err(class) => {
+                        rep.fail("C10", format!("{} => {}", desc, class));
+                        broken = true;
+                        break;
+                    }
+                    Ok(o) if o == "out_of_data" => {
+                        rep.count("C13.out_of_data");
+                        rep.eval("C13");
+                        if d != before {
+                            rep.fail("C13", format!("{} => out_of_data but the coder changed", desc));
+                            broken = true;
+                        }
+                        break;
+                    }
+                    Ok(o) => match parse_hex(&o) {
+                        Some(sym) if (sym as usize) + 1 < cdf.len() => {
+                            log.push(Step::Dec { p, b, cdf, sym: sym as usize });
+                        }
+                        _ => {
+                            rep.fail("C10", format!("{} => decoded {} which is not in the model's support / not a documented error", desc, o));
+                            broken = true;
+                            break;
+                        }
+                    },
+                }
+            } else {
+                let kind = *rng.pick(&["cp", "cp", "cp", "incp", "decp"]);
+                let q = g.new_prec(rng, d.p, kind);
+                let k = match kind {
+                    "cp" => 0,
+                    "incp" => 1,
+                    _ => 2,
+                };
+                desc.push_str(&format!(" | {} {:x}", kind, q));
+                let before = d.clone();
+                let old = d.p;
+                match guarded(|| C::cp(&mut d, k, q).unwrap()) {
+                    Err(class) => {
+                        rep.fail("C13", format!("{} => {}", desc, class));
+                        broken = true;
+                        break;
+                    }
+                    Ok(o) if o == "ok" => {
+                        rep.count(if q > old { "C13.precision_up" } else if q < old { "C13.precision_down" } else { "C13.precision_same" });
+                        log.push(Step::Prec { old });
+                    }
+                    Ok(o) if o == "out_of_remainders" => {
+                        rep.count("C13.precision_change_refused");
+                        rep.eval("C13");
+                        if d != before {
+                            rep.fail("C13", format!("{} => out_of_remainders but the coder changed", desc));
+                            broken = true;
+                            break;
+                        }
+                    }
+                    Ok(o) => {
+                        rep.fail("C13", format!("{} => {}", desc, o));
+                        broken = true;
+                        break;
+                    }
+                }
+            }
+        }
+        if broken {
+            continue;
+        }
+        let exported = guarded(|| C::into_rem(&d).unwrap());
+        let (prefix, suffix) = match exported {
+            Ok(Ok(x)) => x,
+            other => {
+                rep.fail("C13", format!("{} | intorem => {:?}", desc, other.map(|e| e.err())));
+                continue;
+            }
+        };
+        if prefix.len() > data.len() || prefix[..] != data[..prefix.len()] {
+            rep.fail("C13", format!("{} | intorem => prefix {} is not an unaltered prefix of the data", desc, show_list(prefix.clone())));
+            continue;
+        }
+        for way in 0..3u32 {
+            let mut wdesc = desc.clone();
+            let (mut e, stash): (Dyn<C::W, C::S>, Vec<u128>) = match way {
+                0 => (d.clone(), vec![]),
+                _ => {
+                    let src: Vec<u128> = if way == 1 { suffix.clone() } else { prefix.iter().chain(suffix.iter()).copied().collect() };
+                    wdesc.push_str(&format!(" | reimport {}", way));
+                    match guarded(|| C::ctor(2, d.p, words::<C::W>(&src)).unwrap()) {
+                        Ok(Ok(e)) => (e, if way == 1 { prefix.clone() } else { vec![] }),
+                        _ => {
+                            rep.fail("C13", format!("{} => from_remainders failed", wdesc));
+                            continue;
+                        }
+                    }
+                }
+            };
+            let mut ok = true;
+            for step in log.iter().rev() {
+                match step {
+                    Step::Dec { p, b, cdf, sym } => {
+                        if rng.chance(1, 8) {
+                            // C09: an out-of-support symbol at any point of the encode history
+                            let bad = cdf.len() - 1 + (rng.next() % 3) as usize * 0x1_0000_0001usize;
+                            let before = e.clone();
+                            let o = guarded(|| C::enc_sym(&mut e, *b, cdf, bad).unwrap());
+                            rep.eval("C09");
+                            if o != Ok("impossible".to_string()) || e != before {
+                                rep.fail("C09", format!("{} | encsym {:x} {:x} {} {:x} => {:?} / coder changed: {}", wdesc, p, b, show_list(cdf.clone()), bad, o, e != before));
+                                ok = false;
+                                break;
+                            }
+                        }
+                        wdesc.push_str(" | undo");
+                        let o = guarded(|| C::enc_sym(&mut e, *b, cdf, *sym).unwrap());
+                        if o != Ok("ok".to_string()) {
+                            rep.fail("C13", format!("{} => re-encoding returned {:?}", wdesc, o));
+                            ok = false;
+                            break;
+                        }
+                    }
+                    Step::Prec { old } => {
+                        wdesc.push_str(" | undo");
+                        let o = guarded(|| C::cp(&mut e, 0, *old).unwrap());
+                        if o != Ok("ok".to_string()) {
+                            rep.fail("C13", format!("{} => reverting the precision returned {:?}", wdesc, o));
+                            ok = false;
+                            break;
+                        }
+                    }
+                }
+            }
+            if !ok {
+                continue;
+            }
+            wdesc.push_str(if from_bin { " | final bin" } else { " | final comp" });
+            let fin = guarded(|| if from_bin { C::into_bin(&e).unwrap() } else { C::into_comp(&e).unwrap() });
+            rep.eval("C13");
+            rep.count(&format!("C13.way{}", way));
+            match fin {
+                Ok(Ok((pre2, suf2))) => {
+                    let rec: Vec<u128> = stash.iter().chain(pre2.iter()).chain(suf2.iter()).copied().collect();
+                    if rec != data {
+                        rep.fail("C13", format!("{} => {} expected the original data", wdesc, show_list(rec)));
+                    }
+                }
+                other => rep.fail("C13", format!("{} => {:?}", wdesc, other.map(|e| e.err()))),
+            }
+            if way == 0 && e != d0 {
+                rep.fail("C13", format!("{} => coder after undoing everything differs from the freshly constructed one", wdesc));
+            }
+            if way == 1 {
+                // one symbol too many: `out_of_remainders` (coder intact) or a legitimate `ok`
+                let p = e.p;
+                let b = g.b(rng, p);
+                let cdf = g.cdf(rng, p);
+                let sym = rng.below(cdf.len() as u128 - 1) as usize;
+                let before = e.clone();
+                let o = guarded(|| C::enc_sym(&mut e, b, &cdf, sym).unwrap());
+                rep.eval("C13");
+                match o {
+                    Ok(o) if o == "ok" => rep.count("C13.extra_symbol_ok"),
+                    Ok(o) if o == "out_of_remainders" => {
+                        rep.count("C13.out_of_remainders");
+                        if e != before {
+                            rep.fail("C13", format!("{} | encsym {:x} {:x} {} {:x} => out_of_remainders but the coder changed", wdesc, p, b, show_list(cdf), sym));
+                        }
+                    }
+                    other => rep.fail("C13", format!("{} | encsym {:x} {:x} {} {:x} => {:?}", wdesc, p, b, show_list(cdf), sym, other)),
+                }
+            }
+        }
+        rep.sample("C13", || format!("{} | intorem | reimport 1 | undoall | final {}", desc, if from_bin { "bin" } else { "comp" }));
+        rep.count(&format!("C13.hist.{}x{}", w, s));
+
+        // ---------------- C14 (+ C10): locality ----------------
+        let p = *rng.pick(&precs);
+        let n = (rng.next() % 24) as usize;
+        let head_words = ((s - w - p) + w - 1) / w + (!from_bin) as u32;
+        let need = head_words as usize + (n * p as usize + w as usize - 1) / w as usize;
+        let len = match rng.next() % 4 {
+            0 => (rng.below(need as u128 + 2)) as usize,
+            _ => need + (rng.next() % 3) as usize,
+        };
+        let mut data: Vec<u128> = (0..len).map(|_| if style == 0 { 0 } else { rng.below(pow2(w)) }).collect();
+        if !from_bin {
+            match data.last_mut() {
+                Some(l) => {
+                    if *l == 0 {
+                        *l = 1;
+                    }
+                }
+                None => data.push(1),
+            }
+        }
+        let d0 = match C::ctor(if from_bin { 0 } else { 1 }, p, words::<C::W>(&data)).unwrap() {
+            Ok(d) => d,
+            Err(()) => continue,
+        };
+        let models: Vec<(u32, Vec<u128>)> = (0..n).map(|_| (g.b(rng, p), gen_cdf(rng, p))).collect();
+        let desc14 = |data: &[u128], models: &[(u32, Vec<u128>)]| {
+            let mut t = describe::<C>(p, from_bin, data);
+            for (b, cdf) in models {
+                t.push_str(&format!(" | dec {:x} {:x} {}", p, b, show_list(cdf.clone())));
+            }
+            t
+        };
+        // decode all; `Err(i)` = ran out of data at index i
+        let run = |start: &Dyn<C::W, C::S>, models: &[(u32, Vec<u128>)]| -> Result<(Vec<usize>, Option<usize>), String> {
+            let mut d = start.clone();
+            let mut syms = Vec::new();
+            for (i, (b, cdf)) in models.iter().enumerate() {
+                match guarded(|| C::dec(&mut d, *b, cdf).unwrap()) {
+                    Err(class) => return Err(class.to_string()),
+                    Ok(o) if o == "out_of_data" => return Ok((syms, Some(i))),
+                    Ok(o) => match parse_hex(&o) {
+                        Some(x) => syms.push(x as usize),
+                        None => return Err(o),
+                    },
+                }
+            }
+            Ok((syms, None))
+        };
+        let base = match run(&d0, &models) {
+            Ok(x) => x,
+            Err(e) => {
+                rep.fail("C10", format!("{} => {}", desc14(&data, &models), e));
+                continue;
+            }
+        };
+        let stack = unwords(&d0.comp);
+        let chunks = reference_chunks(stack.len(), w, p, n);
+        rep.eval("C14");
+        let expect_end = if chunks.len() < n { Some(chunks.len()) } else { None };
+        let expect_syms: Vec<usize> = chunks.iter().zip(&models).map(|(c, (_, cdf))| find(cdf, chunk_value(&stack, c))).collect();
+        if base.1 != expect_end || base.0 != expect_syms {
+            rep.fail("C14", format!("{} => symbols {:?} end {:?}, but chunk-wise decoding gives {:?} end {:?}", desc14(&data, &models), base.0, base.1, expect_syms, expect_end));
+            continue;
+        }
+        if base.1.is_some() {
+            rep.count("C14.ran_out");
+        }
+        if !chunks.is_empty() {
+            let j = rng.below(chunks.len() as u128) as usize;
+            // (a) another model at position j
+            let mut models2 = models.clone();
+            models2[j].1 = gen_cdf(rng, p);
+            rep.eval("C14");
+            match run(&d0, &models2) {
+                Ok((syms, end)) => {
+                    let same_elsewhere = syms.len() == base.0.len() && syms.iter().zip(&base.0).enumerate().all(|(i, (a, b))| i == j || a == b);
+                    if end != base.1 || !same_elsewhere || syms[j] != find(&models2[j].1, chunk_value(&stack, &chunks[j])) {
+                        rep.fail("C14", format!("{} => replacing model {} changed symbols {:?} -> {:?} / end {:?} -> {:?}", desc14(&data, &models2), j, base.0, syms, base.1, end));
+                    }
+                }
+                Err(e) => rep.fail("C10", format!("{} => {}", desc14(&data, &models2), e)),
+            }
+            // (b) flip bits inside chunk j of the original data and rebuild the coder
+            let mut data2 = data.clone();
+            let mut flipped = 0;
+            for &(wi, bi) in &chunks[j] {
+                if rng.chance(1, 2) {
+                    data2[wi] ^= 1 << bi;
+                    flipped += 1;
+                }
+            }
+            if flipped == 0 {
+                let (wi, bi) = chunks[j][0];
+                data2[wi] ^= 1 << bi;
+            }
+            rep.eval("C14");
+            match C::ctor(if from_bin { 0 } else { 1 }, p, words::<C::W>(&data2)).unwrap() {
+                Err(()) => rep.fail("C14", format!("{} => constructor fails after flipping bits of chunk {}", desc14(&data2, &models), j)),
+                Ok(d2) => match run(&d2, &models) {
+                    Ok((syms, end)) => {
+                        let same_elsewhere = syms.len() == base.0.len() && syms.iter().zip(&base.0).enumerate().all(|(i, (a, b))| i == j || a == b);
+                        if end != base.1 || !same_elsewhere {
+                            rep.fail("C14", format!("{} => flipping bits of chunk {} (orig data {}) changed symbols {:?} -> {:?} / end {:?} -> {:?}", desc14(&data2, &models), j, show_list(data.clone()), base.0, syms, base.1, end));
+                        }
+                    }
+                    Err(e) => rep.fail("C10", format!("{} => {}", desc14(&data2, &models), e)),
+                },
+            }
+        }
+        rep.sample("C14", || desc14(&data, &models));
+    }
+}
+
+pub fn oracle(rng: &mut Rng, tier: &str, rep: &mut Report) {
+    let iters = if tier == "thorough" { 60000 } else { 4000 };
+    for (w, s, bps) in combos() {
+        match (w, s) {
+            (8, 16) => oracle_combo::<C8x16>(rng, &bps, iters, rep),
+            (8, 32) => oracle_combo::<C8x32>(rng, &bps, iters, rep),
+            (8, 64) => oracle_combo::<C8x64>(rng, &bps, iters, rep),
+            (16, 32) => oracle_combo::<C16x32>(rng, &bps, iters, rep),
+            (16, 64) => oracle_combo::<C16x64>(rng, &bps, iters, rep),
+            (32, 64) => oracle_combo::<C32x64>(rng, &bps, iters, rep),
+            (32, 128) => oracle_combo::<C32x128>(rng, &bps, iters, rep),
+            (64, 128) => oracle_combo::<C64x128>(rng, &bps, iters, rep),
+            _ => {}
+        }
+    }
+}
